@@ -40,7 +40,7 @@ def cases(draw, tier):
         n = D.weighted(draw, [(7, st.integers(2 * bw, max(2 * bw, nmax))), (2, st.integers(2 * bw, 2 * bw + 3)), (1, st.just(2 * bw))])
         if sc == "function":
             sc = {"cls": "FunctionChangeScore", "key": draw(st.integers(0, 1000)), "modulus": draw(st.sampled_from([2, 3, 4])),
-                  "offset": draw(st.sampled_from([0, 0, 1, 2]))}
+                  "offset": draw(st.sampled_from([0, 0, 1, 2])), "ncols": draw(st.sampled_from([1, 1, 2, 3]))}
             X = [[0.0] * p for _ in range(n)]
         else:
             X, _ = draw(D.structured_matrix(n, p, boundary_positions=(bw, n - bw)))
